@@ -13,6 +13,12 @@ NOT_DECIDED = {
             "decided as 'applies pandas.merge left to right with these key / how / suffix arguments'",
             "tables are enumerated over three column layouts (all nine standard columns + an extra one; misnamed columns with a col_mapper; a "
             "partial table) with any number of rows; cells are strings with '' standing for a missing cell"],
+    "C09": ["what rapidfuzz's weighted Levenshtein and process.cdist compute (C++ extension; assumed contracts as in C08) and what tidytcells' gene "
+            "reference holds for a V allele (uninterpreted v_loop)",
+            "tables are enumerated over column layouts (paired, beta-only with an extra column, alpha-only, a non-TCR table, a non-table); cells are "
+            "strings; index labels are not part of the table model, so 'independent of index labels and row order' holds by construction of the "
+            "model (positional) and is additionally exercised by the thorough tier's concrete runs with non-default / duplicated indices",
+            "a TCR table lacking a column the metric needs raises pandas' KeyError (outside the stated property; excluded by precondition)"],
     "C12": ["find_neighbor_pairs: its loop removes each processed sequence from the reference set while appending pairs (state-carrying loop "
             "over sorted(set(seqs)); sorted()'s order is not modelled): contract NOT discharged, run as a bounded stand-in over an enumerated "
             "universe of string sets (listed under bounded_standins)",
